@@ -65,6 +65,7 @@ type world struct {
 	histID  string
 	nViol   int
 	imports bool // true while only imports (and reopens) happened since the start: C02's quantifier
+	lagged  bool // a rewind on the pruned node fell back below its target (block head below header head) earlier in this history
 }
 
 // ---- tree generation ------------------------------------------------------------------------------------------------
@@ -316,7 +317,11 @@ func (w *world) violate(kind, what, detail string) {
 	if w.nViol > 3 { // one history: report the first few only
 		return
 	}
-	w.run.Violate(kind, w.prop+":"+w.mode+":"+what, w.hist, detail)
+	ctx := ""
+	if w.lagged {
+		ctx = "after-stateless-rewind:"
+	}
+	w.run.Violate(kind, w.prop+":"+w.mode+":"+ctx+what, w.hist, detail)
 }
 
 // judgeC03 evaluates the statement of C03 on the real chain (at rest, after an operation).
@@ -342,6 +347,7 @@ func (w *world) judgeC03(op Op) {
 			return
 		}
 		if blockNum < headNum {
+			w.lagged = true
 			w.run.Count("state:block-head-below-header-head")
 			if w.imports || w.mode == "archive" {
 				w.violate("c03-heads", "block-head-lags-without-pruned-rewind", fmt.Sprintf("after %s: block head #%d below header head #%d", op, blockNum, headNum))
@@ -584,9 +590,32 @@ func (w *world) runHistory(ops []Op) {
 		opS = append(opS, op.String())
 		w.hist = fmt.Sprintf("%s seed=%d mode=%s blocks=%s ops=%s", w.histID, run.Seed, w.mode, tree, strings.Join(opS, ";"))
 		run.Current(w.hist)
+		// which branch of insertChain2 will the first block of the batch take? (coverage counters)
+		pruned := false
+		if op.Kind == 'I' && len(op.IDs) > 0 {
+			b := t.Nodes[op.IDs[0]].Block
+			switch {
+			case w.bc.HasBlockAndState(b.Hash(), b.NumberU64()):
+				if w.bc.CurrentBlock().NumberU64() >= b.NumberU64() {
+					run.Count("path:known-block-skipped")
+				} else {
+					run.Count("path:known-block-above-head-reimported")
+				}
+			case w.bc.HasBlock(b.ParentHash(), b.NumberU64()-1) && !w.bc.HasBlockAndState(b.ParentHash(), b.NumberU64()-1):
+				pruned = true
+			}
+		}
 		res := w.exec(op)
+		if pruned {
+			b := t.Nodes[op.IDs[0]].Block
+			if w.bc.HasBlockAndState(b.Hash(), b.NumberU64()) {
+				run.Count("path:pruned-ancestor-sidechain-overtook-winners-imported")
+			} else {
+				run.Count("path:pruned-ancestor-written-without-state")
+			}
+		}
 		run.Count("op:" + w.mode + ":" + string(op.Kind))
-		run.Count("res:" + strings.SplitN(res, "@", 2)[0])
+		run.Count("res:" + strings.SplitN(strings.SplitN(res, "@", 2)[0], " ", 2)[0])
 		if strings.HasPrefix(res, "panic") {
 			// a crash inside the chain code: the deferred unlocks ran, the database is still readable. Classify the
 			// situation (an ancestor of the batch missing below a stored parent = orphan left behind by a rewind).
@@ -596,7 +625,6 @@ func (w *world) runHistory(ops []Op) {
 			}
 			w.violate("panic", what, res)
 			outS = append(outS, w.dump("panic"))
-			run.Count("res:panic")
 			break
 		}
 		if op.Kind == 'S' {
